@@ -107,8 +107,30 @@ func run(args []string) int {
 	)
 
 	// ---- build from /repo's current working tree ----
+	// (VERIF_REPO=<dir> points the harness at another checkout of pql instead:
+	// used to try planted changes in scratch worktrees in parallel; the
+	// registered commands never set it.)
+	modArgs := []string{}
+	outRoot := verifRoot // where evidence and new replay files go
+	if alt := os.Getenv("VERIF_REPO"); alt != "" {
+		outRoot = os.Getenv("VERIF_ALT_OUT")
+		if outRoot == "" {
+			outRoot = "/tmp/verif-alt"
+		}
+		gm, err1 := os.ReadFile(filepath.Join(verifRoot, "harness", "go.mod"))
+		gs, err2 := os.ReadFile(filepath.Join(verifRoot, "harness", "go.sum"))
+		if err1 != nil || err2 != nil {
+			fmt.Fprintln(os.Stderr, "cannot read harness go.mod/go.sum")
+			return 2
+		}
+		altMod := filepath.Join(work, "alt.mod")
+		os.WriteFile(altMod, []byte(strings.ReplaceAll(string(gm), "=> /repo", "=> "+alt)), 0o644)
+		os.WriteFile(filepath.Join(work, "alt.sum"), gs, 0o644)
+		modArgs = []string{"-modfile=" + altMod}
+		fmt.Printf("note: building against %s instead of /repo\n", alt)
+	}
 	bin := filepath.Join(work, "props.test")
-	buildArgs := []string{"test", "-c", "-vet=off", "-o", bin}
+	buildArgs := append([]string{"test", "-c", "-vet=off", "-o", bin}, modArgs...)
 	if prop.Race {
 		buildArgs = append(buildArgs, "-race")
 	}
@@ -119,7 +141,7 @@ func run(args []string) int {
 	}
 	if prop.NeedCLI {
 		cli := filepath.Join(work, "pql")
-		if out, err := runCmd(filepath.Join(verifRoot, "harness"), env, 20*time.Minute, "go", "build", "-o", cli, "github.com/runreveal/pql/cmd/pql"); err != nil {
+		if out, err := runCmd(filepath.Join(verifRoot, "harness"), env, 20*time.Minute, "go", append(append([]string{"build"}, modArgs...), "-o", cli, "github.com/runreveal/pql/cmd/pql")...); err != nil {
 			fmt.Fprintf(os.Stderr, "BUILD FAILED (cmd/pql):\n%s\n", out)
 			return 2
 		}
@@ -135,7 +157,7 @@ func run(args []string) int {
 			}
 		}
 		if fuzzBin != "" {
-			if out, err := runCmd(filepath.Join(verifRoot, "harness"), env, 20*time.Minute, "go", "test", "-c", "-vet=off", "-fuzz=Fuzz", "-o", fuzzBin, "./props"); err != nil {
+			if out, err := runCmd(filepath.Join(verifRoot, "harness"), env, 20*time.Minute, "go", append(append([]string{"test", "-c", "-vet=off", "-fuzz=Fuzz"}, modArgs...), "-o", fuzzBin, "./props")...); err != nil {
 				fmt.Fprintf(os.Stderr, "BUILD FAILED (fuzz binary):\n%s\n", out)
 				return 2
 			}
@@ -236,8 +258,9 @@ func run(args []string) int {
 		vf := filepath.Join(r.outDir, "violation.json")
 		if b, err := os.ReadFile(vf); err == nil {
 			sum := sha256.Sum256(b)
-			os.MkdirAll(replayDir, 0o755)
-			dst := filepath.Join(replayDir, "v-"+hex.EncodeToString(sum[:6])+".json")
+			newDir := filepath.Join(outRoot, "replays", id)
+			os.MkdirAll(newDir, 0o755)
+			dst := filepath.Join(newDir, "v-"+hex.EncodeToString(sum[:6])+".json")
 			os.WriteFile(dst, b, 0o644)
 			// A violation that is a listed known finding is not reported again.
 			if matchesKnown(b, known) {
@@ -257,9 +280,9 @@ func run(args []string) int {
 	// ---- evidence ----
 	wall := time.Since(start).Seconds()
 	ev := merged.evidence(id, tier, seed, prop, wall, len(violations), nReplays, knownLines)
-	os.MkdirAll(filepath.Join(verifRoot, "evidence"), 0o755)
+	os.MkdirAll(filepath.Join(outRoot, "evidence"), 0o755)
 	b, _ := json.MarshalIndent(ev, "", " ")
-	if err := os.WriteFile(filepath.Join(verifRoot, "evidence", id+".json"), append(b, '\n'), 0o644); err != nil {
+	if err := os.WriteFile(filepath.Join(outRoot, "evidence", id+".json"), append(b, '\n'), 0o644); err != nil {
 		infra = append(infra, "writing evidence: "+err.Error())
 	}
 
